@@ -15,6 +15,7 @@
    All identifiers are prefixed h_/H_: mir.c defines many object-like macros (strings, aliases, ...). */
 #include "mir.c"
 #include <setjmp.h>
+#include <unistd.h>
 #include <stdarg.h>
 
 #ifdef curr_label_num
@@ -551,6 +552,7 @@ static int h_split (char *s, char sep, char **fld, int max) {
 
 /* pattern written over the dead stack right before an immediate operand is created (0 = off) */
 static int h_pat = 0;
+static int h_modlabels = 0; /* label ids of the description are module-wide, not per function */
 static void h_scribble (int pat);
 
 static MIR_op_t h_parse_op (h_bld_t *b, char *s) {
@@ -744,7 +746,8 @@ static void h_build_line (h_bld_t *b, h_words_t *ws) {
       b->func = va ? MIR_new_vararg_func_arr (ctx, nm, nres, res, nargs, args)
                    : MIR_new_func_arr (ctx, nm, nres, res, nargs, args);
       /* labels are per function in the description; an lref after the function still uses them */
-      for (size_t i = 0; i < b->nlabs; i++) b->labs[i] = NULL;
+      if (!h_modlabels)
+        for (size_t i = 0; i < b->nlabs; i++) b->labs[i] = NULL;
     }
     for (size_t i = 0; i < nargs; i++) free (anames[i]);
     free (anames);
@@ -1070,6 +1073,7 @@ static MIR_context_t h_build_merged (char **lines, size_t nlines, uint64_t label
 static void h_run_case (FILE *in, h_words_t *hdr) {
   const char *id = hdr->w[1];
   int exec_p = 0, load_p = 0, raw_p = 0, rebuild_p = 0, merge_p = 0, postlink_p = 0;
+  h_modlabels = 0;
   const char *text_path = NULL;
   uint64_t labelbase = 0;
   h_call_t *calls = NULL;
@@ -1090,6 +1094,8 @@ static void h_run_case (FILE *in, h_words_t *hdr) {
       raw_p = 1;
     else if (strcmp (hdr->w[i], "rebuild") == 0)
       rebuild_p = 1;
+    else if (strcmp (hdr->w[i], "modlabels") == 0)
+      h_modlabels = 1;
     else if (strcmp (hdr->w[i], "merge") == 0)
       merge_p = 1;
     else if (strcmp (hdr->w[i], "postlink") == 0)
@@ -1358,6 +1364,7 @@ int main (int argc, char **argv) {
   h_words_t ws = {0};
   MIR_context_t uctx = NULL;
   if (argc < 2) h_die ("usage: c11_harness <casefile>");
+  alarm (1500); /* safety net: never outlive the check that started us */
   in = strcmp (argv[1], "-") == 0 ? stdin : fopen (argv[1], "r");
   if (in == NULL) h_die ("cannot open %s", argv[1]);
   while (getline (&h_line, &h_line_cap, in) > 0) {
